@@ -776,3 +776,66 @@ Print Assumptions parse_doctype_tokens.
 Print Assumptions parse_element_tokens.
 Print Assumptions parse_pi_post.
 Print Assumptions parse_close_element_post.
+
+(* ------------------------------------------------------------------------------------------ *)
+(* the [starts_with] hypotheses added to the statements are needed: the parsers themselves    *)
+(* skip the opening delimiter blindly (advance 4 / 2 / 9 / 1); it is the caller that tests it *)
+(* ------------------------------------------------------------------------------------------ *)
+
+Lemma SInv_new : forall text, SInv text (stream_new text).
+Proof. intros text. unfold SInv, stream_new. cbn [s_pos s_end s_rest]. split; [reflexivity|lia]. Qed.
+
+Lemma parse_comment_needs_prefix :
+  let text := b "abcd-->" in
+  exists s' acc', parse_comment text (list token) rec_ev (stream_new text) [] = Ok (s', acc') /\
+    sub text 0 (s_pos s') = b "abcd-->".
+Proof. eexists. eexists. split; vm_compute; reflexivity. Qed.
+
+Lemma parse_cdata_needs_prefix :
+  let text := b "abcdefghix]]>" in
+  exists s' acc', parse_cdata text (list token) rec_ev (stream_new text) [] = Ok (s', acc') /\
+    sub text 0 (s_pos s') = b "abcdefghix]]>".
+Proof. eexists. eexists. split; vm_compute; reflexivity. Qed.
+
+Lemma parse_pi_needs_prefix :
+  let text := b "abc?>" in
+  exists s' acc', parse_pi text (list token) rec_ev (stream_new text) [] = Ok (s', acc') /\
+    sub text 0 (s_pos s') = b "abc?>".
+Proof. eexists. eexists. split; vm_compute; reflexivity. Qed.
+
+Lemma parse_close_element_needs_prefix :
+  let text := b "abc>" in
+  exists s' acc', parse_close_element text (list token) rec_ev (stream_new text) [] = Ok (s', acc') /\
+    sub text 0 (s_pos s') = b "abc>".
+Proof. eexists. eexists. split; vm_compute; reflexivity. Qed.
+
+Lemma parse_element_needs_prefix :
+  let text := b "ab>" in
+  exists open s' acc', parse_element text (list token) rec_ev (stream_new text) [] = Ok (open, s', acc') /\
+    sub text 0 (s_pos s') = b "ab>".
+Proof. eexists. eexists. eexists. split; vm_compute; reflexivity. Qed.
+
+(* what the callers establish ([parse_content_loop]: current byte '<' and the next byte;
+   [parse_document]: curr_byte_opt = Some '<') gives the [starts_with] hypotheses *)
+Lemma curr_byte_opt_starts_with : forall text s x, SInv text s ->
+  curr_byte_opt s = Some x -> starts_with s [x] = true.
+Proof.
+  intros text s x H E. destruct (curr_byte_opt_inv _ _ E) as [L [r Er]].
+  unfold starts_with, avail. rewrite Er.
+  destruct (N.to_nat (s_end s - s_pos s)) eqn:En; [lia|].
+  cbn [firstn prefix_b]. rewrite N.eqb_refl. reflexivity.
+Qed.
+
+Lemma next_byte_starts_with : forall text s x y, SInv text s ->
+  at_end s = false -> curr_byte_unchecked s = Ok x -> next_byte s = Ok y ->
+  starts_with s [x; y] = true.
+Proof.
+  intros text s x y H E Ex Ey. unfold curr_byte_unchecked in Ex. unfold next_byte in Ey.
+  destruct (s_end s <=? s_pos s + 1) eqn:El; [discriminate|].
+  destruct (s_rest s) as [|x' [|y' r]] eqn:Er; try discriminate.
+  injection Ex as ->. injection Ey as ->.
+  unfold starts_with, avail. rewrite Er.
+  destruct (N.to_nat (s_end s - s_pos s)) as [|[|k]] eqn:En; [lia|lia|].
+  cbn [firstn prefix_b]. rewrite !N.eqb_refl. reflexivity.
+Qed.
+Print Assumptions next_byte_starts_with.
